@@ -1,4 +1,5 @@
 import ScVerif.C09.DeleteRetry
+import ScVerif.C09.Include
 /-!
 # C09 — property theorems, part 7: the REMOVE an overtaken `Collection.Delete` announces
 
@@ -61,6 +62,43 @@ theorem C09_delete_fails_only_when_overtaken (r : DReq ι μ) (first : Option (S
       if r.check o.body then .removed 0 o.body (delEvent r.id o) else .failed o.body) := by
   refine ⟨fun h k hk => ?_, deleteCall_undisturbed r first world, rfl, fun _ => rfl⟩
   exact deleteLoop_unavailable r first world 5 0 (by simpa [heldAt, deleteCall] using h) k (Nat.zero_le _) (by omega)
+
+/-- The same REMOVE as a subscriber with `WithInclude f` (any filter) gets it: `include` as coded, applied to the
+event of a Delete that went through at a store holding the removed body, either forwards a change that is well
+formed at the subscriber's FILTERED view and takes the item out of it, or drops the event — and then the item was
+not in the filtered view to begin with.  (With a stale old value this fails: the filter would be asked about a
+body the subscriber was never shown.) -/
+theorem C09_delete_event_through_include (f : ι → μ → Bool) (r : DReq ι μ) (first : Option (Slot μ))
+    (world : Nat → Option (Slot μ)) (k : Nat) (ret : μ) (ev : Change ι μ)
+    (h : deleteCall r first world = .removed k ret ev)
+    (s : View ι μ) (hs : ∀ o, world k = some o → s r.id = some o.body) :
+    match includeChange f ev with
+    | some c' => WFChange (restrict f s) c' ∧ apply c' (restrict f s) = restrict f (s.set r.id none) ∧
+        restrict f s r.id = some ret
+    | none => restrict f (s.set r.id none) = restrict f s ∧ restrict f s r.id = none := by
+  obtain ⟨o, h1, _, _, h4, h5, _, _, _⟩ := deleteLoop_removed r world 5 0 first k ret ev h
+  subst h4 h5
+  have hso := hs o h1
+  have hwf : WFChange s (delEvent r.id o) := by simp [WFChange, delEvent, hso]
+  have happ : apply (delEvent r.id o) s = s.set r.id none := by simp [apply, delEvent]
+  have hsim := Sim_include f s (delEvent r.id o) hwf
+  rw [happ] at hsim
+  by_cases hf : f r.id o.body
+  · have hinc : includeChange f (delEvent r.id o) = some (delEvent r.id o) := by
+      simp [includeChange, delEvent, incl, hf]
+    rw [hinc] at hsim ⊢
+    exact ⟨hsim.1, hsim.2, by simp [restrict, hso, hf]⟩
+  · have hinc : includeChange f (delEvent r.id o) = none := by
+      simp [includeChange, delEvent, incl, hf]
+    rw [hinc] at hsim ⊢
+    exact ⟨hsim, by simp [restrict, hso, hf]⟩
+/-- non-vacuity for the filtered subscriber: the item moved INTO the filter while the Delete was overtaken (first
+read "2", stored at commit "1", filter = odd): the REMOVE carries "1", is forwarded, and the subscriber's view
+loses the item -/
+example :
+    (match deleteCall (ι := String) ⟨"a", false, fun _ => true⟩ (some ⟨0, "2"⟩) (fun _ => some ⟨1, "1"⟩) with
+      | .removed _ _ ev => (includeChange (fun _ v => v = "1") ev).map (fun c => (c.kind, c.old))
+      | _ => none) = some (.remove, some "1") := by decide
 
 /-- non-vacuity: a Delete whose item is rewritten once between its read and its lock removes and announces the
 NEW body at its second attempt; with an expected value equal to the OLD body the second attempt's check fails on
